@@ -11,6 +11,7 @@ def check(rep):
     PR.rule_compiles(ctx, rid="C15.SHAPE-COMPILES", strict=False)
     PR.rule_key(ctx, rid="C15.STR-ONLY", mode="str-only")
     PR.rule_renderers(ctx, rid="C15.SALT-EXACT", kinds=("str",))
+    PR.rule_coercions(ctx, rid="C15.SALT-VALUE", fields={"salt", "splitting_fields"})
     ER.rule_value_keyed_caches(ctx, rid="C15.NO-VALUE-KEYED-CACHE", modules={"binning/binning.py", "experiment_evaluator.py"})
     ER.rule_call_forwards(ctx, rid="C15.CALL-FORWARDS")
     rep.assume("NOT decided: str(int) beyond CPython's 4300-digit conversion limit; lone surrogates (not in the statement)")
